@@ -148,7 +148,7 @@ def run(pid, tier_, replay=None):
     stats = bp.trace_stats(merged)
 
     # 4a. Split.tla: every tree x size on the specification and on the real split functions (C05, C09)
-    split = bp.split_vectors(binp, tier_) if pid in ("C05", "C09") else None
+    split = bp.split_vectors(binp, tier_) if pid in ("C05", "C09") and bp.SPLIT_AVAILABLE else None
 
     # 4b. white-box conformance: every recorded execution must be a behaviour of BatchProcessor.tla (BPTrace.tla)
     conf = bp.run_bptrace(merged, timeout=900 if quick else 3000)
@@ -174,7 +174,13 @@ def run(pid, tier_, replay=None):
         found.append(dict(signature=sig, what="%s: %s violated in scenario %s at event %d" % (pid, clause, sc["id"], seq),
                           replay=dict(property=pid, clause=clause, scenario=sc, event_seq=seq,
                                       events=bp.scenario_events(merged, tr)[:400])))
-    rt = rt_fut.result() if rt_fut else None
+    rt = None
+    if rt_fut:
+        try:
+            rt = rt_fut.result()
+        except C.Inconclusive as e:
+            # the repository's tests are an additional source of executions, not a prerequisite of the verdict
+            print("NOTE: the repository's own tests could not be traced on this tree (%s)" % str(e).splitlines()[0][:160])
     if rt:
         seen_rt = set()
         for prop, clause, t, seq in rt["violations"]:
